@@ -22,7 +22,7 @@ package iobroker
 //@   lockinv mu kout: imp(b.key != "" && b.ownOut != 0, b.kOut == b.key)
 //@   lockinv mu kinne: imp(b.ownIn != 0, b.kIn != "")
 //@   lockinv mu koutne: imp(b.ownOut != 0, b.kOut != "")
-//@   lockinv{C01} mu sameid: imp(b.ownIn != 0 && b.ownOut != 0, b.kIn == b.kOut)
+//@   lockinv{C01,C06} mu sameid: imp(b.ownIn != 0 && b.ownOut != 0, b.kIn == b.kOut)
 //@   fresh mu me: b.ownIn != me && b.ownOut != me
 //@   guarantee mu inOthers: imp(old(b.ownIn) != me && b.ownIn != me, b.ownIn == old(b.ownIn) && b.cancelIn == old(b.cancelIn) && b.kIn == old(b.kIn))
 //@   guarantee mu inNoSteal: imp(old(b.ownIn) != me && old(b.ownIn) != 0, b.ownIn == old(b.ownIn))
@@ -167,3 +167,18 @@ package iobroker
 //@     invariant errvar: err == lastErr
 //@     invariant bufok: len(buf) == 2048
 //@   ensures all_forwarded_unless_cancelled: done(ctx) || (imp(lastN != 0, sentData) && imp(lastErr != nil, sentErr))
+
+// ConnectInOut: both sides get one key which no other call uses (the counter
+// value obtained in this call identifies the request).
+//@ func Broker.ConnectInOut(b, ctx, sl, addr, w, r)
+//@   props C06
+//@   ghost rid int = 0
+//@   ghost nTok int = 0
+//@   ghost nIn int = 0
+//@   ghost nOut int = 0
+//@   flows w: Broker.ConnectIn
+//@   flows r: Broker.ConnectOut
+//@   on call atomic.Uint64.Add(c, d) (n): assert(d >= 1, "counter_advances"); rid = n; nTok++
+//@   on enter Broker.ConnectIn(bb, c, l, a, ww, k): assert(nTok == 1 && k == b.bidirKey + strconv.FormatUint(rid, 10) && bb == b && ww == w, "input_side_gets_the_per_request_key"); nIn++
+//@   on enter Broker.ConnectOut(bb, c, l, a, rr, k): assert(nTok == 1 && k == b.bidirKey + strconv.FormatUint(rid, 10) && bb == b && rr == r, "output_side_gets_the_per_request_key"); nOut++
+//@   ensures both_sides_once: nIn == 1 && nOut == 1 && nTok == 1
